@@ -33,6 +33,8 @@ pub broadcast axiom fn clone_eq<T: Clone>(a: T, b: T) requires #[trigger] cloned
 // accepting(): a poll_ready answered Ready(Ok) and no start_send consumed it yet  (start_send's documented precondition)
 // healthy(): this peer never answers Err (a peer that "stays healthy" in the statement's words)
 // cooperative(): this peer never answers Pending ("is able to accept data")
+// broken(): a poll_ready/poll_flush/poll_close of this sink has answered Err (the transport failed). A start_send Err does NOT
+//           imply broken(): framed sinks reject a single item (e.g. one that is too large to encode) and stay usable.
 pub trait VSink<Item>: Sized {
     type Error;
     spec fn sent(&self) -> Seq<Item>;
@@ -41,6 +43,7 @@ pub trait VSink<Item>: Sized {
     spec fn closed(&self) -> bool;
     spec fn healthy(&self) -> bool;
     spec fn cooperative(&self) -> bool;
+    spec fn broken(&self) -> bool;
     spec fn id(&self) -> int;
 
     fn poll_ready(&mut self, cx: &mut Context) -> (r: Poll<Result<(), Self::Error>>)
@@ -48,7 +51,8 @@ pub trait VSink<Item>: Sized {
             final(self).sent() == old(self).sent(), final(self).flushed() == old(self).flushed(), final(self).id() == old(self).id(),
             final(self).healthy() == old(self).healthy(), final(self).cooperative() == old(self).cooperative(), final(self).closed() == old(self).closed(),
             r matches Poll::Ready(Ok(_)) ==> final(self).accepting(),
-            r matches Poll::Ready(Err(_)) ==> !old(self).healthy(),
+            r matches Poll::Ready(Err(_)) ==> !old(self).healthy() && final(self).broken(),
+            old(self).broken() ==> final(self).broken(),
             r is Pending ==> !old(self).cooperative() && final(cx).armed_sinks() == old(cx).armed_sinks().insert(old(self).id()),
             r is Ready ==> final(cx).armed_sinks() == old(cx).armed_sinks(),
             final(cx).armed_src() == old(cx).armed_src();
@@ -57,6 +61,7 @@ pub trait VSink<Item>: Sized {
         ensures
             r is Ok ==> final(self).sent() == old(self).sent().push(item),
             r is Err ==> final(self).sent() == old(self).sent() && !old(self).healthy(),
+            final(self).broken() == old(self).broken(),
             final(self).flushed() == old(self).flushed(), final(self).id() == old(self).id(),
             final(self).healthy() == old(self).healthy(), final(self).cooperative() == old(self).cooperative(), final(self).closed() == old(self).closed();
     fn poll_flush(&mut self, cx: &mut Context) -> (r: Poll<Result<(), Self::Error>>)
@@ -65,7 +70,8 @@ pub trait VSink<Item>: Sized {
             final(self).healthy() == old(self).healthy(), final(self).cooperative() == old(self).cooperative(), final(self).closed() == old(self).closed(),
             r matches Poll::Ready(Ok(_)) ==> final(self).flushed() == final(self).sent().len(),
             !(r matches Poll::Ready(Ok(_))) ==> final(self).flushed() == old(self).flushed(),
-            r matches Poll::Ready(Err(_)) ==> !old(self).healthy(),
+            r matches Poll::Ready(Err(_)) ==> !old(self).healthy() && final(self).broken(),
+            old(self).broken() ==> final(self).broken(),
             r is Pending ==> !old(self).cooperative() && final(cx).armed_sinks() == old(cx).armed_sinks().insert(old(self).id()),
             r is Ready ==> final(cx).armed_sinks() == old(cx).armed_sinks(),
             final(cx).armed_src() == old(cx).armed_src();
@@ -75,7 +81,8 @@ pub trait VSink<Item>: Sized {
             final(self).healthy() == old(self).healthy(), final(self).cooperative() == old(self).cooperative(),
             r matches Poll::Ready(Ok(_)) ==> final(self).flushed() == final(self).sent().len() && final(self).closed(),
             !(r matches Poll::Ready(Ok(_))) ==> final(self).flushed() == old(self).flushed() && final(self).closed() == old(self).closed(),
-            r matches Poll::Ready(Err(_)) ==> !old(self).healthy(),
+            r matches Poll::Ready(Err(_)) ==> !old(self).healthy() && final(self).broken(),
+            old(self).broken() ==> final(self).broken(),
             r is Pending ==> !old(self).cooperative() && final(cx).armed_sinks() == old(cx).armed_sinks().insert(old(self).id()),
             r is Ready ==> final(cx).armed_sinks() == old(cx).armed_sinks(),
             final(cx).armed_src() == old(cx).armed_src();
@@ -91,6 +98,7 @@ impl<T, E> VSink<T> for BoxSink<T, E> {
     uninterp spec fn closed(&self) -> bool;
     uninterp spec fn healthy(&self) -> bool;
     uninterp spec fn cooperative(&self) -> bool;
+    uninterp spec fn broken(&self) -> bool;
     uninterp spec fn id(&self) -> int;
     #[verifier::external_body] fn poll_ready(&mut self, cx: &mut Context) -> (r: Poll<Result<(), E>>) { unimplemented!() }
     #[verifier::external_body] fn start_send(&mut self, item: T) -> (r: Result<(), E>) { unimplemented!() }
